@@ -67,12 +67,14 @@ IMPL_FALLBACK = {"last_known": "last-known"}
 
 
 def shards(tier, seed):
+    # workloads are sized by CPU cost (quick: ~10-25 CPU-s per shard incl. ~6 s of imports; thorough: ~6-9 CPU-min per shard);
+    # the wall-clock budgets are only a safety net for a heavily loaded machine
     if tier == "quick":
-        out = [{"name": f"const-{k}", "kind": "const", "k": k, "n": 70, "budget_s": 60} for k in range(5)]
-        out += [{"name": f"lme-{k}", "kind": "lme", "k": k, "n": 9, "budget_s": 55, "timeout": 600} for k in range(11)]
+        out = [{"name": f"const-{k}", "kind": "const", "k": k, "n": 70, "budget_s": 400, "timeout": 1200} for k in range(5)]
+        out += [{"name": f"lme-{k}", "kind": "lme", "k": k, "n": 9, "budget_s": 400, "timeout": 1200} for k in range(11)]
     else:
-        out = [{"name": f"const-{k}", "kind": "const", "k": k, "n": 2200, "budget_s": 700} for k in range(5)]
-        out += [{"name": f"lme-{k}", "kind": "lme", "k": k, "n": 80, "budget_s": 720, "timeout": 3000} for k in range(11)]
+        out = [{"name": f"const-{k}", "kind": "const", "k": k, "n": 3500, "budget_s": 2400, "timeout": 5400} for k in range(5)]
+        out += [{"name": f"lme-{k}", "kind": "lme", "k": k, "n": 130, "budget_s": 2400, "timeout": 5400} for k in range(11)]
     return out
 
 
@@ -501,6 +503,7 @@ def _run_lme(spec, ctx):
         ctx.inconclusive_because("leaspy.algo.fit.lme_fit no longer exposes MixedLM: the construction cannot be recorded")
         return
 
+    shard_worst = {"vs_statsmodels": 0.0, "vs_closed_form": 0.0}
     for i in ctx.cases(spec["n"]):
         rng = ctx.rng("lme", spec["k"], i)
         slope = bool(rng.random() < 0.6)
@@ -757,7 +760,9 @@ def _run_lme(spec, ctx):
             if set(sm_re) - set(bs):
                 ctx.violation("lme.personalize/subjects-missing", "training subjects known to statsmodels are absent", case)
                 continue
-        ctx.note("example_worst_abs_diff_over_re_scale", {"vs_statsmodels": worst_sm, "vs_closed_form": worst_cf})
+        shard_worst["vs_statsmodels"] = max(shard_worst["vs_statsmodels"], worst_sm)
+        shard_worst["vs_closed_form"] = max(shard_worst["vs_closed_form"], worst_cf)
+        ctx.note(f"worst_abs_diff_over_re_scale[{spec['name']}]", dict(shard_worst))
         if judged_cf or sm_re is not None:
             ctx.distinct("lme", slope, indep, reml, method, keep_nan, df.to_dict("list"))
 
@@ -844,6 +849,7 @@ def _run_lme(spec, ctx):
                     ctx.count("lme_no_observation_subjects")
                 ref = closed_form(t, y, R, use_statement_form)
                 tol = 2e-4 * max(float(np.abs(ref).max()), float(np.abs(b).max())) + 2e-5 * sb
+                shard_worst["new_vs_closed_form"] = max(shard_worst.get("new_vs_closed_form", 0.0), float(np.max(np.abs(b - ref)) / sb))
                 if not np.all(np.abs(b - ref) <= tol):
                     ctx.violation("lme.personalize/differs-from-closed-form",
                                   f"new subject {sid} ({len(t)} obs): {b.tolist()} vs (Z'Z+Psi^-1)^-1 Z'r = {ref.tolist()}",
@@ -856,3 +862,4 @@ def _run_lme(spec, ctx):
             ctx.sample({"slope": slope, "independent": indep, "reml": reml, "method": method, "n_subjects": n_sub,
                         "n_rows": len(df), "fe_params": beta, "cov_re": cov_re, "noise_std": noise,
                         "cond_cov_re_unscaled": cond, "judged_vs_statsmodels": sm_re is not None}, limit=1)
+    ctx.note(f"worst_abs_diff_over_re_scale[{spec['name']}]", dict(shard_worst))
